@@ -50,6 +50,18 @@ INV = [
 ]
 
 
+def _witness(flags):
+    def w(ns):
+        """a real calculator initialised for a real shot by the real _init_trajectory"""
+        P = ns['py_ballisticcalc']
+        shot = P.Shot(P.Weapon(P.Unit.Inch(2), P.Unit.Inch(12)), P.Ammo(P.DragModel(0.223, P.TableG7), P.Unit.FPS(2750)),
+                      winds=[P.Wind(P.Unit.MPH(5), P.Unit.Degree(45), P.Unit.Yard(100)), P.Wind(P.Unit.MPH(3), P.Unit.Degree(90))])
+        calc = P.Calculator()
+        calc._calc._init_trajectory(shot)
+        return dict(self=calc._calc, shot_info=shot, maximum_range=600.0, record_step=150.0, filter_flags=flags, time_step=0.0)
+    return w
+
+
 # ---- specification fragments ----------------------------------------------------------------------------------------
 SIG = 'air_speed(head(velocity_vector), wind_vector)'
 DT = f'(self.calc_step / max(1.0, {SIG}))'
@@ -139,7 +151,7 @@ contract(f'{TC}::TrajectoryCalc._integrate', props=INTEGRATE_PROPS,
                    'assumed'),
                   ('loop-left-only-beyond-the-requested-range-plus-the-smaller-of-calc-step-and-record-step',
                    'range_vector.x > maximum_range + min(self.calc_step, record_step)')],
-         modifies=['*._defined_units'], prune=True, heavy=True, modular=True,
+         modifies=['*._defined_units'], prune=True, heavy=True, modular=True, witnesses=[_witness(0), _witness(31)],
          result_shape=ListOf(ROW, minlen=1).alternatives()[0],
          use={f'{TC}::_TrajectoryDataFilter.should_record': [
                   'range-row-exactly-at-the-record-distance', 'recorded-distance-is-the-last-multiple-not-beyond-the-projectile',
